@@ -110,6 +110,7 @@ func plan(tier string, seed int64) []driver.Case {
 		cases = append(cases, driver.Case{ID: fmt.Sprintf("conc/%d/%s", i, e.Name), Race: tier == "thorough" && i%2 == 0,
 			P: map[string]string{"kind": "conc", "entry": e.Name, "callers": fmt.Sprint(1 + rng.Intn(8)), "yield": fmt.Sprint(rng.Intn(3)), "seed": fmt.Sprint(rng.Int63()), "concurrent": "1"}})
 	}
+	cases = append(cases, joinedCases()...)
 	// subjects' subscriptions
 	for _, kind := range []string{"publish", "behavior", "replay", "async", "unicast"} {
 		for j := 0; j <= maxPrefix; j++ {
@@ -1064,6 +1065,10 @@ func runCase(c driver.Case) driver.Result {
 		return runSubject(c)
 	case "creation":
 		return runCreation(c)
+	case "joined-producer":
+		return runJoinedProducer(c)
+	case "observer-panics-in-terminal":
+		return runObserverPanicsInTerminal(c)
 	}
 	return runCut(c)
 }
